@@ -10,7 +10,9 @@ import common as c
 
 
 def observe(binary, r, extra=()):
-    args = list(extra) + ([] if r is None else ["--max-drift-rate", str(r)])
+    short = "--short-flag" in extra            # the rate given as `-m <r>`, the documented short form of the option
+    extra = [x for x in extra if x != "--short-flag"]
+    args = list(extra) + ([] if r is None else (["-m", str(r)] if short else ["--max-drift-rate", str(r)]))
     res = c.run_daemon_in_namespace(binary, args)
     if res["segment"]:
         b = bytes.fromhex(res["segment"])
@@ -99,7 +101,9 @@ def run(res, proofs_ok, proofs_why, only=None):
                   (4294967, ("--fake-iface", "fake0", "-r", "PHC0", "-i", "fake0")),
                   (None, ("--fake-iface", "fake0", "-r", "PHC0", "-i", "fake0")),
                   (200, ("--first", "--max-drift-rate 50")), (None, ("--first", "--max-drift-rate 7")),
-                  (3, ("--first", "-m 4294967")), (77, ("--json-output",))]
+                  (3, ("--first", "-m 4294967")), (77, ("--json-output",)),
+                  (3, ("--short-flag",)), (5, ("--short-flag",)), (50, ("--short-flag",)), (0, ("--short-flag",)), (4294967, ("--short-flag",)),
+                  (4294968, ("--short-flag",)), (1, ("--short-flag", "--json-output"))]
         with ThreadPoolExecutor(max_workers=8) as ex:
             cobs = list(ex.map(lambda rc: observe(binary, rc[0], rc[1]), combos))
         for (r, extra), (out, raw) in zip(combos, cobs):
